@@ -54,6 +54,11 @@ import PycsepVerif.PyPrelude
                                 are treated as copied at that moment (py2lean_sm.py refuses a later in-place update of
                                 an escaped list before it is rebound)
     parameter updated in place  declared `inout` in TARGETS; its final value is part of the result
+    `numpy.random.seed(s)`      both hidden streams are replaced by those of the freshly seeded generator, given by the
+                                opaque parameters `seed_rng : Int → List Rat`, `seed_pois : Int → List Nat`
+    `numpy.random.poisson(m)`   the next element of the hidden stream `pois' : List Nat` (`PySM.rngPoisson`)
+    call of another SM target   `TARGETS.callees`: the generated definition of the callee (chosen by the keywords of the
+                                call), hidden streams passed in and taken back; refused when the callee is not translated
     `numpy.random.*`            the global generator is a hidden variable `rng' : List Rat`, the stream of uniform
                                 numbers in [0,1) it will produce (an INPUT of the definition); running out is
                                 `Exc.rngExhausted` (not a Python exception)
@@ -215,6 +220,21 @@ def rngUniform : List Rat → M (Rat × List Rat)
 /-- `numpy.random.rand(n)` / `numpy.random.random(n)`: the next `n` numbers -/
 def rngRand (n : Nat) (rng : List Rat) : M (List Rat × List Rat) :=
   if n ≤ rng.length then .ok (rng.take n, rng.drop n) else .error .rngExhausted
+
+/-- `numpy.random.poisson(mean)`: the next number of the hidden stream `pois'` of Poisson draws (an INPUT of the
+    definition, like the uniform stream; the mean is not looked at) -/
+def rngPoisson : List Nat → M (Nat × List Nat)
+  | [] => .error .rngExhausted
+  | k :: rest => .ok (k, rest)
+
+/-- `numpy.sum(mask)` of a boolean array: the number of True entries -/
+def countTrue (l : List Bool) : Nat := l.countP (fun b => b)
+
+/-- `x <= y` on values of `numpy.log` (−∞ ≤ everything) -/
+def ellLe {α : Type} [RealOps α] : ELL α → ELL α → Bool
+  | .negInf, _ => true
+  | .fin _, .negInf => false
+  | .fin a, .fin b => RealOps.le a b
 
 /-! ## strings, operator tables, structured arrays (round 4c) -/
 
